@@ -40,6 +40,20 @@ var specs = map[string]*propSpec{
 			{Name: "history", Flavour: "plain", Quick: 4000, Thorough: 200000, PerProc: 100, Progress: true, TimeoutS: 900},
 		},
 	},
+	"C10": {
+		ID:   "C10",
+		Rule: "one run = 1-3 types (fresh dynamic, recursive, maps keyed by a TextUnmarshaler, callback types) x 2-7 Marshal/Unmarshal round trips by one client while the simulator is called after EVERY opcode of every compiled encoder/decoder program (sonic's own debug seam, re-pointed) and inside every user callback (also after the callback's last use of its receiver); at each call the tape decides: nothing, GC, stack growth (stack move), growth+GC (shrink), traceback with sentinel check, debug.Stack, Gosched, background GC cycle (write barrier on while generated code keeps running), allocation churn; GODEBUG=clobberfree=1 and SetGCPercent(-1) so that only simulated collections happen and anything freed too early is overwritten; non-trivial = at least one event injected; distinct = distinct trace hash (which event at which opcode of which program)",
+		Assume: []string{
+			"events are injected at opcode boundaries and call-outs, not at arbitrary machine instructions (asynchronous preemption is off; rr is unavailable) - DESIGN 5",
+			"encoder boundaries immediately before a `save` opcode are exempt, exactly as in upstream's own debug_instr (a fresh object lives only in a register there and no real collection can happen)",
+			"the C10 build flavour carries one extra call per opcode; the instruction stream between the calls is the shipped one",
+			"background-cycle progress is decided by the Go runtime (GOMAXPROCS=1): that fault kind replays best-effort, all others exactly",
+		},
+		Batches: []batch{
+			{Name: "events", Flavour: "c10", Env: []string{"GODEBUG=clobberfree=1,asyncpreemptoff=1", "GOMAXPROCS=1"}, Quick: 4000, Thorough: 150000, PerProc: 120, Progress: true, TimeoutS: 900},
+			{Name: "events-go1.26", Flavour: "c10", Toolchain: "go1.26.8", Env: []string{"GODEBUG=clobberfree=1,asyncpreemptoff=1", "GOMAXPROCS=1"}, Quick: 800, Thorough: 50000, PerProc: 120, Progress: true, TimeoutS: 900},
+		},
+	},
 	"C08": {
 		ID:   "C08",
 		Rule: "one run = 1-4 fresh dynamic types (reflect.StructOf etc., never seen by the process: first-use compilation happens inside the run) + callback types that yield mid-encode/mid-decode, 2-6 clients x 1-6 API calls (Marshal, MarshalString, MarshalIndent, EncodeInto, Unmarshal, UnmarshalString, Valid, Get, Pretouch with compile options), several clients sharing one type, program-cache capacity 2..4096 and pool hit/miss/steal decisions from the tape, injected callback panics in a quarter of the runs; non-trivial = more context switches than clients; distinct = distinct trace hash",
